@@ -9,19 +9,19 @@ NOREP = "not EMPTY(self) and not REPEATABLE(self)"
 
 C[P + "optional"] = dict(
     params={"self": "self", "is_greedy": "bool"}, raises={},
-    ensures="SAME_TREE(TEXT(result), REF_QUANT(self, 0, 1, not is_greedy)) and IMPLIES(EMPTY(self), result is self)",
+    ensures="SAME_TREE(TEXT(result), REF_QUANT(self, 0, 1, not is_greedy)) and IMPLIES(EMPTY(self), SAME_TEXT(TEXT(result), TEXT(self)))",
     returns="pregex", ref="REF_QUANT(self, 0, 1, not is_greedy)", returns_self_if="EMPTY(self)", frame=[])
 
 C[P + "indefinite"] = dict(
     params={"self": "self", "is_greedy": "bool"},
     raises={"CannotBeRepeatedException": NOREP},
-    ensures="SAME_TREE(TEXT(result), REF_QUANT(self, 0, None, not is_greedy)) and IMPLIES(EMPTY(self), result is self)",
+    ensures="SAME_TREE(TEXT(result), REF_QUANT(self, 0, None, not is_greedy)) and IMPLIES(EMPTY(self), SAME_TEXT(TEXT(result), TEXT(self)))",
     returns="pregex", ref="REF_QUANT(self, 0, None, not is_greedy)", returns_self_if="EMPTY(self)", frame=[])
 
 C[P + "one_or_more"] = dict(
     params={"self": "self", "is_greedy": "bool"},
     raises={"CannotBeRepeatedException": NOREP},
-    ensures="SAME_TREE(TEXT(result), REF_QUANT(self, 1, None, not is_greedy)) and IMPLIES(EMPTY(self), result is self)",
+    ensures="SAME_TREE(TEXT(result), REF_QUANT(self, 1, None, not is_greedy)) and IMPLIES(EMPTY(self), SAME_TEXT(TEXT(result), TEXT(self)))",
     returns="pregex", ref="REF_QUANT(self, 1, None, not is_greedy)", returns_self_if="EMPTY(self)", frame=[])
 
 EXACT_RAISES = {
@@ -32,7 +32,7 @@ EXACT_RAISES = {
 
 C[P + "exactly"] = dict(
     params={"self": "self", "n": "dyn"}, raises=EXACT_RAISES,
-    ensures="SAME_TREE(TEXT(result), REF_QUANT(self, n, n, False)) and IMPLIES(n == 1, result is self)",
+    ensures="SAME_TREE(TEXT(result), REF_QUANT(self, n, n, False)) and IMPLIES(n == 1, SAME_TEXT(TEXT(result), TEXT(self)))",
     returns="pregex", ref="REF_QUANT(self, n, n, False)", returns_self_if="n == 1 or (EMPTY(self) and n != 0)", frame=[])
 
 for op in ("__mul__", "__rmul__"):
